@@ -49,7 +49,8 @@ ASSUMPTIONS = ['resolutions positive (closest_level: strictly decreasing, stretc
                'numerically meaningful range: resolution >= 1e-9 of the coordinate magnitude',
                'integer level indices (string level names of limit_tile not modelled)',
                'closest_level_spec: threshold_res = None; with thresholds closest_level_thr_general (switch rule at the level where the '
-               'current threshold is hit) is proved, not a closed form of the result for every request',
+               'current threshold is hit) and closest_level_thr_one_per_gap (closed form when every threshold has a gap of its own) '
+               'are proved; several thresholds in one gap / above the first level only through the general rule and the correspondence',
                'foreign-SRS requests: PROJ transformation of the 16 outline points is taken as given (harness calls the same PROJ)']
 EXPLANATION = 'grid arithmetic proved over Z for all grids; implementation compared on exact and realistic streams'
 GEN = ['Gen_grid_int.v']
@@ -280,7 +281,7 @@ class Run(object):
     def __init__(self, ctx):
         self.ctx = ctx
         self.T = {name: ([], []) for name in ('tile', 'tile_bbox', 'sizes', 'flip', 'limit', 'origin', 'affected', 'closest',
-                                              'afflevel', 'gen_flip', 'gen_limit', 'gen_list', 'closest_thr', 'foreign', 'envelope')}
+                                              'afflevel', 'gen_flip', 'gen_limit', 'gen_list', 'closest_thr', 'foreign', 'envelope', 'meta')}
         self.skipped = 0
         self.tolerance_oracle = 0
 
@@ -761,6 +762,8 @@ def run(ctx):
 
     # --- generated _create_tile_list against the Python generator, on arbitrary lists
     gen_list_cases(R)
+    # --- MetaGrid.get_affected_level_tiles (rectangle -> meta tiles; seeding / cleanup walker) on the exact grids
+    meta_cases(R, [gc for gc in gen_grids if gc.kind == 'exact'])
     # --- requests in another SRS than the grid (outline points transformed by PROJ)
     grids += foreign_cases(R)
     envelope_cases(R)
@@ -808,6 +811,9 @@ def run(ctx):
                    "match affected_level_foreign g pts sx sy, obs with "
                    "| Some (b, l), Some (b', l') => bbox_eqb b b' && (l =? l') | None, None => true | _, _ => false end",
                    lambda i: T['foreign'][1][i], defs=defs, shard=100)
+    ctx.corr_check('meta_affected', I, 'grid * Z * Z * bbox * Z * affected', T['meta'][0],
+                   "fun c => let '(g, msx, msy, b, l, obs) := c in affected_close 0 (meta_affected_level_tiles g msx msy b l) obs",
+                   lambda i: T['meta'][1][i], defs=defs, shard=250)
     ctx.corr_check('generate_envelope_points', I, 'bbox * Z * list (Z * Z)', T['envelope'][0],
                    "fun c => let '(b, n, obs) := c in pairs_eqb (envelope_points b n) obs",
                    lambda i: T['envelope'][1][i])
@@ -863,6 +869,93 @@ def envelope_cases(R):
         lo_x, hi_x, lo_y, hi_y = min(bb[0], bb[2]), max(bb[0], bb[2]), min(bb[1], bb[3]), max(bb[1], bb[3])
         if bb[0] <= bb[2] and not all(c in pts for c in ((lo_x, lo_y), (hi_x, lo_y), (hi_x, hi_y), (lo_x, hi_y))):
             ctx.fail('envelope-corners', 'generate_envelope_points(%r, %d) misses a corner' % (bb, n), {'bbox': bb, 'n': n, 'points': pts})
+
+
+def meta_cases(R, exact_grids):
+    """MetaGrid.get_affected_level_tiles on exact-stream grids: ordinary rectangles on / next to tile edges and strips
+    thinner than 2/10 pixel in one axis (or both) that run through several meta tiles.  Oracle: per axis independently the
+    effective range is the 1/10 px inset or, for a range thinner than 2/10 px, its centre; the list is the row-major list
+    (from the top) of the anchors of all meta tiles between the two ends, None outside the grid."""
+    ctx, rng = R.ctx, R.ctx.rng
+    try:
+        from mapproxy.grid import MetaGrid
+    except Exception as e:  # noqa
+        ctx.problem('harness', 'MetaGrid cannot be imported: %r' % (e,))
+        return
+    for gc in exact_grids:
+        g = gc.grid
+        for l in level_sample(gc, rng, ctx.n(2, 3), deepest=True):
+            r = float(gc.res[l])
+            nx, ny = gc.grid_size(l)
+            ms = rng.choice([(2, 2), (3, 2), (1, 4), (4, 4), (2, 1), (5, 3)])
+            mg = MetaGrid(g, meta_size=ms, meta_buffer=rng.choice([0, 10]))
+            mx, my = min(ms[0], nx), min(ms[1], ny)
+            xs = edge_values(gc, rng, l, 0)
+            ys = edge_values(gc, rng, l, 1)
+            for k in range(ctx.n(6, 12)):
+                kind = rng.choice(['thin_x', 'thin_y', 'thin_both', 'rect', 'rect'])
+                a, b = rng.choice(xs), rng.choice(ys)
+                long_x = r * gc.tw * mx * rng.choice([0.5, 1.5, 2.5, 3.25])
+                long_y = r * gc.th * my * rng.choice([0.5, 1.5, 2.5, 3.25])
+                thin = rng.choice([0.0, 0.125, r / 8.0, r / 16.0])
+                if kind == 'thin_x':
+                    bb = (a, b, a + thin, b + long_y)
+                elif kind == 'thin_y':
+                    bb = (a, b, a + long_x, b + thin)
+                elif kind == 'thin_both':
+                    bb = (a, b, a + thin, b + rng.choice([0.0, r / 8.0]))
+                else:
+                    c, d = rng.choice(xs), rng.choice(ys)
+                    bb = (min(a, c), min(b, d), max(a, c), max(b, d))
+                    if (bb[2] - bb[0]) / (r * gc.tw) > 14 or (bb[3] - bb[1]) / (r * gc.th) > 14:
+                        continue
+                bb = tuple(math.floor(v * 8) / 8.0 for v in bb)
+                if not gc.can_scale(*bb):
+                    continue
+                check_meta_affected(R, gc, mg, ms, bb, l, kind)
+
+
+def check_meta_affected(R, gc, mg, ms, bb, l, kind):
+    ctx, g = R.ctx, gc.grid
+    r = gc.res[l]
+    delta = r / 10
+    nx, ny = gc.grid_size(l)
+    mx, my = min(ms[0], nx), min(ms[1], ny)
+    st, res = call(lambda: (lambda t: (t[0], t[1], [tuple(c) if c is not None else None for c in t[2]]))(
+        mg.get_affected_level_tiles(bb, l)))
+    rep = {'grid': gparams(g), 'query': {'fn': 'meta_affected', 'meta_size': list(ms), 'bbox': list(bb), 'level': l}}
+    ctx.case(('meta_affected', gc.name, ms, bb, l), True, dict(rep['query'], grid=repr(g), result=str(res)[:200]) if len(ctx.samples) < 6 else None)
+    ctx.count('meta_affected:' + kind)
+    if st != 'ok':
+        # since the thin-rectangle handling no rectangle with x0 <= x1, y0 <= y1 is refused
+        ctx.fail('meta-affected-raises', 'MetaGrid.get_affected_level_tiles raised %r (%s)' % (res, st), rep)
+        return
+    abbox, (gx, gy), tiles = res
+    rep['result'] = {'bbox': list(abbox), 'grid': [gx, gy], 'tiles': tiles[:40]}
+
+    def eff(lo, hi):
+        lo, hi = frac(lo), frac(hi)
+        if lo + delta > hi - delta:
+            return (lo + hi) / 2, (lo + hi) / 2
+        return lo + delta, hi - delta
+    ex0, ex1 = eff(bb[0], bb[2])
+    ey0, ey1 = eff(bb[1], bb[3])
+    p0 = gc.tile_pos(ex0, ey0, l)
+    p1 = gc.tile_pos(ex1, ey1, l)
+    ax0, ax1 = math.floor(p0[0]) // mx * mx, math.floor(p1[0]) // mx * mx
+    ay0, ay1 = math.floor(p0[1]) // my * my, math.floor(p1[1]) // my * my
+    cols = list(range(ax0, ax1 + 1, mx))
+    rows = list(range(ay1, ay0 - 1, -my)) if not gc.ul else list(range(ay1, ay0 + 1, my))
+    expected = [((x, y, l) if (0 <= x < nx and 0 <= y < ny) else None) for y in rows for x in cols]
+    if tiles != expected or (gx, gy) != (len(cols), len(rows)):
+        ctx.fail('meta-affected-tiles', 'meta tiles for the rectangle differ from the cover computed per axis (row-major from the '
+                 'top): %d x %d reported, %d x %d expected' % (gx, gy, len(cols), len(rows)), dict(rep, expected=expected[:40]))
+        return
+    if not all(gc.can_scale(v) for v in abbox):
+        return
+    obs = '(Affected %s %d %d %s)' % (gc.zbbox(abbox), gx, gy, llit(tiles, lambda c: olit(c, coord_lit)))
+    R.add('meta', '(%s, %d, %d, %s, %s, %s)' % (gc.name, ms[0], ms[1], gc.zbbox(bb), zlit(l), obs),
+          {'grid': repr(g), 'meta_size': ms, 'bbox': bb, 'level': l, 'result': rep['result']})
 
 
 def foreign_cases(R):
@@ -1058,14 +1151,15 @@ def threshold_cases(R):
                 ctx.fail('closest-raises', 'closest_level raised %r' % (lv,), rep)
                 continue
             # oracle: one threshold t with r_(k-1) > t >= r_k and a request r_k <= res < r_(k-1): level k-1 iff res > t
-            if len(ths) == 1:
-                t = frac(ths[0])
-                ks = [k for k in range(1, len(res)) if gc.res[k - 1] > t >= gc.res[k]]
-                if ks and gc.res[ks[0]] <= fq < gc.res[ks[0] - 1]:
-                    want = ks[0] - 1 if fq > t else ks[0]
-                    if lv != want:
-                        ctx.fail('closest_level-threshold', 'closest_level(%r) = %r with threshold %r, the switch rule says %r' % (
-                            q, lv, ths[0], want), dict(rep, expected=want))
+            # (the same for several thresholds when each lies in a gap of its own: closest_level_thr_one_per_gap)
+            gaps = [[k for k in range(1, len(res)) if gc.res[k - 1] > frac(t) >= gc.res[k]] for t in ths]
+            if ths and all(len(ks) == 1 for ks in gaps) and len({ks[0] for ks in gaps}) == len(ths):
+                for t, ks in zip(ths, gaps):
+                    if gc.res[ks[0]] <= fq < gc.res[ks[0] - 1]:
+                        want = ks[0] - 1 if fq > frac(t) else ks[0]
+                        if lv != want:
+                            ctx.fail('closest_level-threshold', 'closest_level(%r) = %r with threshold %r, the switch rule says %r' % (
+                                q, lv, t, want), dict(rep, expected=want))
             if closest_ambiguous(gc, q):
                 R.skipped += 1
                 continue
